@@ -754,6 +754,8 @@ class CallMixin:
         v = args[0]
         if isinstance(v, VObj):
             return k(st, self.uf('id_of', [v], T_INT))
+        if isinstance(v, VOpt) and isinstance(v.inner, VObj):      # id(None) is one fixed number, id(x) a function of x
+            return k(st, VInt(z3.If(v.isnone, z3.Int('id_of_None'), self.uf('id_of', [v.inner], T_INT).z)))
         return k(st, fresh_val(T_INT, 'id', st))
 
     def bi_bool(self, args, kws, st, node, k):
@@ -1069,6 +1071,12 @@ class CallMixin:
             else:
                 raise Unsupported("dict.%s on an untyped empty dict (line %s)" % (name, node.lineno))
         if name == 'add':
+            pre = []
+            if isinstance(args[0], VObj) and args[0].sort in getattr(self, 'unhashable_sorts', ()):
+                # an object of a user-defined class is hashed when it is put into a set: __hash__ may be None (TypeError)
+                s2 = st.copy()
+                s2.path.append('hash!TypeError@%s' % node.lineno)
+                pre = self.raise_(s2, 'TypeError')
             try:
                 mismatch = not isinstance(args[0], VOpt) and h.kt[0] != 'opt' and type_of_val(args[0], st) != h.kt \
                     and not (h.kt[0] == 'int' and isinstance(args[0], (VInt, VBool)))
@@ -1077,9 +1085,9 @@ class CallMixin:
             if mismatch:
                 # an element of another type than the set is declared to hold: membership of the declared type is unchanged
                 self.note('rule', (node.lineno, ast.unparse(node)[:60], 'set.add of a value of another type: no effect on the modelled membership'))
-                return k(st, NONE)
+                return pre + k(st, NONE)
             st.heap[recv.rid] = HDict(h.kt, h.vt, z3.Store(h.mem, to_z3(args[0], h.kt), z3.BoolVal(True)), h.vals)
-            return k(st, NONE)
+            return pre + k(st, NONE)
         if name == 'remove' and h.vt is None:          # set.remove: KeyError when absent
             kz = to_z3(args[0], h.kt)
 
